@@ -145,8 +145,33 @@ func bitsToBytesLSB(bits string) []byte {
 }
 
 func decodeAllGo(cs prefix.PrefixCodes, in []byte, byteMode bool) string {
+	return decodeAllGoReuse(nil, cs, in, byteMode, 0)
+}
+
+// reusePre: codes a Decoder held before it is initialised again (a short one and one with
+// linked second-level tables).
+var reusePre = func() []prefix.PrefixCodes {
+	mk := func(lens []int) prefix.PrefixCodes {
+		var cs prefix.PrefixCodes
+		for s, l := range lens {
+			cs = append(cs, prefix.PrefixCode{Sym: uint32(s), Len: uint32(l)})
+		}
+		prefix.GeneratePrefixes(cs)
+		return cs
+	}
+	return []prefix.PrefixCodes{mk([]int{2, 2, 2, 3, 3}), mk([]int{1, 2, 3, 4, 5, 6, 7, 8, 9, 10, 11, 12, 13, 14, 15, 15})}
+}()
+
+// decodeAllGoReuse decodes with a Decoder that held the code `pre` before.
+// `lead` bits are read first, so that the bit buffer is not empty at the first symbol.
+func decodeAllGoReuse(pre, cs prefix.PrefixCodes, in []byte, byteMode bool, lead uint) string {
 	var pd prefix.Decoder
 	var res []string
+	if pre != nil {
+		if _, p := catch(func() { pd.Init(pre) }); p != nil {
+			return "pre-init-panic"
+		}
+	}
 	_, p := catch(func() { pd.Init(cs) })
 	if p != nil {
 		return "init-panic"
@@ -158,6 +183,11 @@ func decodeAllGo(cs prefix.PrefixCodes, in []byte, byteMode bool) string {
 	}
 	pr.Init(src, false)
 	total := int64(8 * len(in))
+	if lead > 0 {
+		if err, p := catch(func() { pr.ReadBits(lead) }); err != nil || p != nil {
+			return "lead-failed"
+		}
+	}
 	for len(res) < 100000 {
 		if pr.BitsRead() >= total {
 			res = append(res, "end")
@@ -211,6 +241,17 @@ func execPfx(o *Out, id, line string) {
 		if err == nil && p == nil && len(cs) >= 1 {
 			// decode/encode tables as functions on a sample of inputs
 			in := unhx(kv["in"])
+			if len(in) > 0 {
+				// a Decoder that held another code before behaves like a fresh one (also for the
+				// zero-bit code of a one-symbol alphabet)
+				fresh := decodeAllGoReuse(nil, cs, in, false, 3)
+				for _, pre := range reusePre {
+					if got := decodeAllGoReuse(pre, cs, in, false, 3); got != fresh {
+						o.Violate("C20", "a re-initialised Decoder decodes "+trunc(got, 100)+", a fresh one "+trunc(fresh, 100), "decoder-reuse", line)
+						break
+					}
+				}
+			}
 			if len(in) > 0 && len(cs) >= 2 {
 				var bits strings.Builder
 				for _, b := range in {
@@ -516,6 +557,9 @@ func genPfx(r *Rand, tier string, emit func(string)) {
 	}
 	emit("gp codes=- in=00")
 	emit("gp codes=5:0 in=00")
+	for _, sym := range []int{0, 5, 255, 285} { // a one-symbol alphabet (zero-bit code) over non-zero input bits
+		emit(fmt.Sprintf("gp codes=%d:0 in=%s", sym, hx(append([]byte{0xff, 0x31}, r.Bytes(6)...))))
+	}
 	emit("gp codes=5:1 in=00")
 	// exhaustive: every length vector over <= 4 symbols with lengths 1..3
 	for n := 2; n <= 4; n++ {
